@@ -13,7 +13,7 @@ REQUIRED = ["accepted_create_sound", "accepted_create_signed_by_did_key", "accep
             "controller_chain_bounded", "controller_cycle_refused", "deactivated_controller_rejected",
             "controllers_never_deactivated", "controller_versions_are_active", "validator_rules_partial", "validator_rules_embedded_witness", "deactivated_controller_latest_witness", "removed_key_rejected", "removed_key_rejected_self_controlled",
             "validator_rules_sound_complete", "validator_rules_each_necessary",
-            "fact_network_validators", "fact_wiring", "fact_call_sites", "fact_comparisons", "fact_thumbprint_from_key_material", "fact_entry_id_checks", "fact_validator_scope", "fact_max_controller_depth",
+            "fact_network_validators", "fact_wiring", "fact_verifier_always_verifies", "fact_thumbprint_rule_for_every_type", "fact_call_sites", "fact_comparisons", "fact_thumbprint_from_key_material", "fact_entry_id_checks", "fact_validator_scope", "fact_max_controller_depth",
             "fact_resolve_conditions", "fact_controller_skips", "fact_create_update_split", "fact_callback_steps",
             "fact_store_calls", "fact_update_steps", "fact_ambassador_controller_resolution", "fact_key_resolver"]
 
@@ -55,6 +55,7 @@ def stored_vm_mismatch(obs):
             if "=" not in x:
                 continue
             vid, key = x.split("=", 1)
+            key = key.lstrip("?")   # '?' marks a type go-did cannot make a public key of; the id rule holds for ALL types
             if "#" not in vid or vid.split("#", 1)[1] != key or not vid.startswith(m.group(1) + "#"):
                 return vid + " carries key " + (key or "<none>")
     return None
@@ -142,6 +143,8 @@ def run(ctx):
         while k > 0 and not ops[k].startswith('{"op":"hist"'):
             k -= 1
         keep = [ops[k]]
+        if any('"delayed":true' in ops[j] for j in range(k + 1, i + 1)):
+            return "\n".join(ops[k:i + 1]) + "\n"   # delayed-VDR schedule: positions matter, keep everything
         for j in range(k + 1, i + 1):
             rejected = j < len(impl) and re.match(r"pair \S+ (err|panic)\S* \[db-same\] =$", impl[j])
             if j == i or not rejected:
@@ -151,7 +154,8 @@ def run(ctx):
     # ---- direct property oracles on the implementation's own outputs
     kinds, classes, labels = Counter(), Counter(), Counter()
     distinct = set()
-    n_pairs = n_ok = n_embedded_illformed = n_deactivated_controller = 0
+    n_pairs = n_ok = n_embedded_illformed = n_deactivated_controller = n_dag = 0
+    dag_classes = Counter()
     oracle = Counter()
     cur_obs = ""
     reported = {}
@@ -176,8 +180,16 @@ def run(ctx):
             labels[re.sub(r"\d+$", "N", op.get("label", "?")) + ("/callback-only" if op.get("noVerify") else "/verifier+callback")] += 1
             verified = not op.get("noVerify")
             continue
+        if op["op"] == "verify":
+            n_dag += 1
+            dag_classes[line.split(" ")[2] if line.count(" ") >= 2 else "?"] += 1
+            if i < len(model) and line != model[i] and line.endswith(" admit"):
+                report("dag-verifier-admits-what-the-model-refuses:" + re.sub(r"[^a-z:-]", "", model[i].split(" ")[-1]),
+                       "the DAG signature verifier admitted a transaction that the model's verifier refuses with " + model[i].split(" ")[-1], i)
+            continue
         if op["op"] != "pair":
             continue
+        verified = bool(op.get("verified", verified))
         m = re.match(r"pair (\S+) (\S+) \[([^\]]*)\] (.*)$", line)
         if not m:
             report("unparseable-line", "harness output line not understood", i)
@@ -197,6 +209,9 @@ def run(ctx):
                        "a resolvable document holds a verification method whose id is not DID#thumbprint(its own key): " + bad_vm, i)
         if "NOTIFY-MISMATCH" in flags:
             report("notify-mismatch", "network notified of a DID update although the document was rejected (or not notified although accepted)", i)
+        if "SIG-NOT-BY-KID-KEY" in flags:
+            report("accepted-update-whose-signature-does-not-verify-under-the-kid-key",
+                   "update accepted (DAG verifier passed earlier) although the JWS does not verify under the key the kid names", i)
         if "NONDETERMINISTIC" in flags:
             report("nondeterministic-outcome", "the same pair on the same history gave a different outcome on a second store: " + flags, i)
         if cls != "ok":
@@ -303,6 +318,7 @@ def run(ctx):
     ctx.cov["input_distribution"] = {"histories": sum(labels.values()), "history_kinds": dict(sorted(labels.items())),
                                      "pair_kinds": dict(sorted(kinds.items())), "outcome_classes": dict(sorted(classes.items())),
                                      "accepted": n_ok, "rejected": n_pairs - n_ok,
+                                     "delayed_vdr_dag_verdicts": dict(sorted(dag_classes.items())),
                                      "accepted_with_ill_formed_embedded_method(known finding)": n_embedded_illformed,
                                      "accepted_update_by_key_of_deactivated_controller(known finding)": n_deactivated_controller}
     ctx.cov["samples"] = [impl[1][:300] if len(impl) > 1 else "", impl[2][:300] if len(impl) > 2 else ""]
